@@ -254,6 +254,7 @@ func searchtrace(args []string) {
 	ctx := context.Background()
 	names := strings.Split(*cfgs, ",")
 	roots := makeRoots(r, *n, *heavy, *mates, *ladders)
+	probed := false
 
 	for i, root := range roots {
 		name := names[i%len(names)]
@@ -276,6 +277,10 @@ func searchtrace(args []string) {
 			for x := d; x >= 1 && !doC13(ctx, w, r, c, root, x, *limit, *windows); x-- {
 			}
 		case "c11":
+			if !probed {
+				probed = true
+				ttProbe(ctx, w, r)
+			}
 			for x := d; x >= 1 && !doC11(ctx, w, r, c, root, x, *limit); x-- {
 			}
 		case "c12":
@@ -456,6 +461,24 @@ func doC13(ctx context.Context, w *out.Writer, r *rand.Rand, c *sdump.Config, ro
 }
 
 var ttSizes = []uint64{32, 64, 4 << 10, 1 << 20}
+
+// ttProbe: an entry is found under its own hash and under no hash that differs from it in a single bit
+// (the slot is selected by some bits, the rest must be verified), for tables of several sizes.
+func ttProbe(ctx context.Context, w *out.Writer, r *rand.Rand) {
+	for _, size := range []uint64{32, 64, 1 << 10, 1 << 20} {
+		tt := search.NewTranspositionTable(ctx, size)
+		h := board.ZobristHash(r.Uint64())
+		tt.Write(h, search.ExactBound, 3, 2, eval.HeuristicScore(1), board.Move{From: board.E2, To: board.E4})
+		_, _, _, _, own := tt.Read(h)
+		other := []int{}
+		for bit := 0; bit < 64; bit++ {
+			if _, _, _, _, hit := tt.Read(h ^ board.ZobristHash(uint64(1)<<uint(bit))); hit {
+				other = append(other, bit)
+			}
+		}
+		w.Emit(out.M{"op": "ttprobe", "size": int(size), "own": proj.B2I(own), "other": other})
+	}
+}
 
 func doC11(ctx context.Context, w *out.Writer, r *rand.Rand, c *sdump.Config, root rootT, depth, limit int) bool {
 	d, ok := dumpTree(ctx, w, c, root, depth, limit, true)
